@@ -67,7 +67,7 @@ class ListProperty(PropertyProtocol):
                 schemas,
             )
 
-        items = data.prefixItems or []
+        items = [*data.prefixItems] if data.prefixItems else []
         if data.items:
             items.append(data.items)
 
